@@ -263,6 +263,50 @@ def gen(ctx, sub, hostile=False):
     return cc, cm
 
 
+LONG_NAME_LENGTHS = [255, 256, 4000, 16384, 65535, 65536, 65539, 131072]
+LONG_NAME_LENGTHS_MORE = [65537, 65541, 196611, 1000003]        # thorough tier
+
+
+def gen_long_names(ctx, sub):
+    """Tables in which a registered long option name has 255 .. 131072 (thorough: about 10^6) characters -
+    getopt.h puts no bound on the length of a name, and getopt_register_opt takes any string (the
+    GETOPT_OPT / GETOPT_OPTARG macros accept a `const char *` built at run time).  Per length and per
+    hasarg: the full name, name=value, name and a separate argument, the name last with its argument
+    missing, the name extended / shortened by one character, and - what must NOT be taken for the option -
+    the (length mod 65536)-, (length mod 256)- and (length mod 2^32 ...)-character prefixes of the name, alone,
+    with =value and followed by a word; also two registered names that agree on their first 65536 (or L-1)
+    characters.  Same text for the driver and the model.  -> [(length, heavy for the model?, case)]"""
+    r = ctx.rng
+    cases = []
+    lengths = LONG_NAME_LENGTHS + ([] if ctx.quick else LONG_NAME_LENGTHS_MORE)
+    for L in lengths:
+        body = bytes(r.choice(b"abcdefghijklmnopqrstuvwxyz-_0123456789") for _ in range(L - 2))
+        name = b"--" + body
+        twin_at = min(L - 1, 65536)
+        twin = name[:twin_at] + (b"Z" if name[twin_at:twin_at + 1] != b"Z" else b"Y") + name[twin_at + 1:] + b"q"
+        prefixes = [k for k in sorted({L % 65536, L % 256, L % 65535} - {L}) if k >= 3]
+        big = L > 200000
+        for hasarg in (0, 1):
+            miss = 3 if hasarg else None
+            if L in (65536, 65539) and r.random() < 0.5:
+                miss = None if hasarg else 3
+            tab = Table([(b"-b", 0), (name, hasarg), (b"-f", 1), None, (b"--" + body[:1] if L % 65536 != 3 else b"--zz", 0)], miss)
+            tab2 = Table([(name, hasarg), (twin, 1 - hasarg), None, (b"-b", 0)], 2 if miss is not None else None)
+            argvs = [[b"-b", name, b"-f", b"x"], [name + b"=value", b"-b"], [name, b"val", b"-b", b"op"], [b"-b", name]]
+            if not big:
+                argvs += [[name + b"=", b"-b"], [name + b"x", b"-b"], [name[:-1], b"-b"], [b"--", name]]
+            for k in prefixes:
+                argvs += [[name[:k], b"-b"], [name[:k] + b"=1", b"-b"], [b"-b", name[:k], b"val", b"-b"]]
+            def heavy(a):      # a long word that the parser compares with the long registered names
+                return any(len(w) > 20000 for w in (a[:a.index(b"--")] if b"--" in a else a))
+            for a in argvs:
+                cases.append((L, heavy(a), parse_text(tab, [b"prog"] + a)))
+            for a in ([twin, b"v", name, b"v"], [twin + b"=v", name + b"=v"], [name[:65536], twin[:-1], b"-b"]):
+                cases.append((L, heavy(a), parse_text(tab2, [b"prog"] + a)))
+        ctx.count(sub + ".long-name.length=%d" % L)
+    return cases
+
+
 def gen_irregular(ctx, sub):
     """tables outside wf_table (names containing '=', duplicates, invalid names, missing label on an
     occupied slot): only impl vs model (and vs the as-coded reference where nothing aborts)"""
@@ -342,6 +386,31 @@ def _run(ctx, sub, hostile):
                "(label, optarg) list and final optind against extracted model and reference parser; "
                "non-trivial = distinct (case, result)" % (len(SW_KEYS), ctx.n(3, 4)),
                samples=[cc[len(cc) // 2][:200], cc[-1][:200]])
+    # registered long option names of 255 .. 131072 (thorough: 10^6) characters.  The extracted model is a
+    # list program: comparing a word of 65536 characters with a registered name of that length costs it 7 s.
+    # It sees every case whose words are short (all the prefix cases, whatever the length of the registered
+    # name) or whose name has up to 16384 characters, in the thorough tier also the others up to 65541;
+    # every case is compared with the reference parser (the Coq spec, linear), which is what the theorems
+    # equate the model with.
+    lcl = gen_long_names(ctx, sub)
+    lc = [c for _, _, c in lcl]
+    limpl, st = vlib.run_sharded(exe, lc, env=env)
+    _sanitizer(ctx, sub + ".long-name", st, lc, limpl)
+    lspec, _ = vlib.run_sharded(mexe, ["spec " + c for c in lc])
+    mi = [i for i, (L, heavy, c) in enumerate(lcl) if not heavy or (not ctx.quick and L <= 65541)]
+    mi.sort(key=lambda i: -lcl[i][0])           # the slow ones first, one per shard
+    mout, _ = vlib.run_sharded(mexe, [lc[i] for i in mi], shards=min(len(mi), 4 * vlib.NCPU), timeout=3000)
+    lmodel = list(lspec)
+    for i, o in zip(mi, mout):
+        lmodel[i] = o
+    ctx.count(sub + ".long-name.through_model", len(mi))
+    vlib.tri_compare(ctx, sub + ".long-name", lc, limpl, lmodel, lspec)
+    ctx.record(sub + ".long-name", lc, set(zip((c[:40] + str(len(c)) for c in lc), limpl)),
+               "tables with a registered long option name of 255, 256, 4000, 16384, 65535, 65536, 65539, 131072 (thorough: "
+               "also 65537, 65541, 196611, 1000003) characters, registered at run time through the back-end API: full name, "
+               "=value, separate and missing argument, name +/- one character, the (length mod 65536 / 256 / 65535)-character "
+               "prefixes (not options), two names agreeing on their first 65536 characters; against the reference parser, "
+               "and against the extracted model where no word of more than 20000 characters is compared (thorough: up to 65541)")
     # irregular tables: model only (+ as-coded reference when nothing aborts)
     icf = gen_irregular(ctx, sub)
     ic = [c for c, _ in icf]
